@@ -109,10 +109,23 @@ def gen(run):
     return hs
 
 
+def root_name(idx, case):
+    """every third history whose initial workspace has no include of file 1 names its root '0root.journal': without a
+    main.journal the workspace finds its root through the include graph of ALL journal files of the folder (no one
+    includes it, first by name) -- the view must still be the root's include tree and nothing else"""
+    init = case["h"][0]["contents"]
+    # (a file that includes the root, at any time, would make a rebuild pick ANOTHER root: which file is the root is not
+    # something an update can change in the incremental workspace, and not what C12 is about)
+    if idx % 3 == 0 and not any(1 in c["incl"] for c in init) and not any(1 in st["content"]["incl"] for st in case["h"][1:]):
+        return "0root.journal"
+    return "main.journal"
+
+
 def to_harness(idx, case):
     cat, h = case["cat"], case["h"]
     init = h[0]["contents"]
     n = len(init)
+    NAMES[1] = root_name(idx, case)
     files = {NAMES[f]: render(cat, f, init[f - 1]) for f in range(1, n + 1)}
     ops = [{"file": NAMES[st["file"]], "content": render(cat, st["file"], st["content"])} for st in h[1:]]
     return {"id": str(idx), "files": files, "ops": ops}
@@ -216,12 +229,13 @@ def main(args):
         hs = gen(run)
     hcases = [to_harness(i, c) for i, (_, c) in enumerate(hs)]
     results = run.harness("workspace", hcases)
-    for (fam, c), hc, res in zip(hs, hcases, results):
+    for i, ((fam, c), hc, res) in enumerate(zip(hs, hcases, results)):
         h = c["h"]
+        NAMES[1] = root_name(i, c) if not args.replay else rp["case"].get("root", "main.journal")
         changes_incl = any(st["content"]["incl"] != [] for st in h[1:])
         run.count(vf.digest(h), len(h) > 1 and changes_incl)
         for sig, what, _ in evaluate(c, res):
-            slim = {"family": fam, "spec_case": {"cat": c["cat"], "h": [{k: v for k, v in st.items() if k != "view"} | {"view": st["view"]} for st in h]}}
+            slim = {"family": fam, "root": NAMES[1], "spec_case": {"cat": c["cat"], "h": [{k: v for k, v in st.items() if k != "view"} | {"view": st["view"]} for st in h]}}
             run.diverge(sig, what, slim, None)
     run.traces_validated = len(hs)
     if hs:
@@ -237,5 +251,9 @@ def main(args):
 
 def confirm(run, d):
     c = d["case"]["spec_case"]
-    res = run.harness("workspace", [to_harness(0, c)])[0]
+    hc = to_harness(1, c)          # index 1: the default root name ...
+    if d["case"].get("root", "main.journal") != "main.journal":
+        hc = to_harness(0, c)      # ... index 0: the root found through the include graph
+    NAMES[1] = d["case"].get("root", "main.journal")
+    res = run.harness("workspace", [hc])[0]
     return any(sig == d["sig"] for sig, _, _ in evaluate(c, res))
